@@ -435,25 +435,39 @@ def _is_int(dt):
     return dt in INT_RANGE
 
 
-def key_views(case):
-    """per key column: 1 when the code under test compares the two key columns after converting both to binary64
-    (Model/KeyView.v: round_sig 53), 0 when it compares them exactly.
-      streamed path: the numba kernels compare left[i] with right[j]; numba's rule for a mixed pair is binary64 as soon as
-                     one side is a float or the pair is uint64 with a signed integer;
-      pandas path:   pandas casts an integer/float pair to float64 (its int64/uint64 and narrower integer pairs are
-                     compared exactly, the latter since fix F-C02h)."""
+def binary64_pairs(case):
+    """per key column: 1 when the code under test may compare keys of the two columns after converting them to binary64.
+      streamed path: the numba kernels compare left[i] with right[j] on the two arrays' own dtypes; numba's rule for a
+                     mixed pair is binary64 as soon as one side is a float or the pair is uint64 with a signed integer
+                     (comparisons inside one column stay exact);
+      pandas path:   pandas casts both columns of an integer/float pair to float64; an int64/uint64 pair is compared
+                     exactly when both columns are sorted and one is unique and as float64 otherwise (pandas 3.0);
+                     narrower integer pairs are compared exactly (since fix F-C02h widens them in dataframe.py)."""
     out = []
     for a, b in _pair_dts(case):
         if a[0] == 'S' or b[0] == 'S':
             out.append(0)
-        elif is_ordered(case):
-            fl = a in FLOATS or b in FLOATS
-            mixed64 = _is_int(a) and _is_int(b) and a != b and 'uint64' in (a, b) and \
-                (a.startswith('int') or b.startswith('int'))
-            out.append(1 if (fl and a != b) or mixed64 else 0)
-        else:
-            out.append(1 if (a in FLOATS) != (b in FLOATS) else 0)
+            continue
+        fl = (a in FLOATS or b in FLOATS) and a != b
+        mixed64 = _is_int(a) and _is_int(b) and a != b and 'uint64' in (a, b) and (a.startswith('int') or b.startswith('int'))
+        out.append(1 if fl or mixed64 else 0)
     return out
+
+
+def whole_column_cast(case):
+    """per key column: 1 on the pandas path for an integer/float pair (both columns are cast to float64 as a whole)"""
+    if is_ordered(case):
+        return [0] * len(case['L']['kn'])
+    return [1 if a[0] != 'S' and b[0] != 'S' and ((a in FLOATS) != (b in FLOATS)) else 0 for a, b in _pair_dts(case)]
+
+
+def key_views(case):
+    """the wire flags kvs of Extract/E_C02.v: the model joins on round_sig 53 of both key columns (Model/KeyView.v).  That
+    is exactly what the pandas path does to an integer/float pair (whole-column astype).  The streamed path converts only
+    inside cross-column comparisons, which no per-column view expresses, and what pandas does to an int64/uint64 pair
+    depends on its internal route: there the model compares exactly and the region where binary64 cannot tell two keys of
+    opposite sides apart is delimited by float_collapse()."""
+    return whole_column_cast(case)
 
 
 def _hint(h):
@@ -624,7 +638,7 @@ def _dt_width(dt):
 def float_collapse(case):
     """F-C02i: a pair of key columns the code compares as binary64 (key_views) holds, on opposite sides, two different
     keys with the same binary64 value"""
-    for j, v in enumerate(key_views(case)):
+    for j, v in enumerate(binary64_pairs(case)):
         if not v:
             continue
         seen = {}
@@ -693,9 +707,11 @@ def known(case, impl, model, spec, mode):
     if long_run(case) and impl == 'EXC:ValueError':
         return 'F-C02g'
     # F-C02i: mixed int64/uint64/float key columns are compared as binary64; suppressed only where two keys of opposite
-    # sides collapse AND the implementation does exactly what the model predicts for that comparison
-    if float_collapse(case) and equal(case, impl, model, mode):
-        return 'F-C02i'
+    # sides collapse AND (integer/float pair on the pandas path, where the conversion is a cast of both columns that the
+    # model reproduces) the implementation does exactly what the model predicts
+    if float_collapse(case) and isinstance(impl, list):
+        if not any(whole_column_cast(case)) or equal(case, impl, model, mode):
+            return 'F-C02i'
     # F-C02f (a key duplicated on both sides: non-monotone b-side map) is repaired by work/E7/fix-F-C02f.diff:
     # those cases are held to the specification like every other case, in every mode
     return None
@@ -743,7 +759,7 @@ def features(case, model):
                 f.append('keys:same-kind-%s' % ('right-wider' if _dt_width(b) > _dt_width(a) else 'left-wider'))
         if cast_alias(case): f.append('keys:cross-side-alias-under-astype')
         if float_collapse(case): f.append('keys:binary64-collapse(F-C02i)')
-        if any(key_views(case)): f.append('keys:compared-as-binary64')
+        if any(binary64_pairs(case)): f.append('keys:compared-as-binary64')
         allk = [z for fr in (case['L'], case['R']) for col in fr['keys'] for z in col]
         if any(abs(z) >> (FSCALE if 'f' in encs else 0) >= (1 << 53) for z in allk) and 'S' not in encs:
             f.append('keys:magnitude>=2^53')
@@ -1116,6 +1132,7 @@ def _key_sides(a, b, rng, sort, n_max=6):
                 sd.append(w)
             elif _fits(v, dt):
                 sd.append(v)
+    L[:] = sorted(set(L)); R[:] = sorted(set(R))
     for side in (L, R):
         if side and rng.random() < 0.3:
             side.append(rng.choice(side))
@@ -1141,7 +1158,7 @@ def _dtype_case(a, b, how, path, rng, cnt):
         if rng.random() < 0.25:
             sizes = dict(cs=None, mcs=None, vf=None, ccs=None)
         else:
-            sizes = dict(cs=rng.randint(3, 5), mcs=rng.randint(1, 4), vf=8, ccs=rng.randint(1, 4))
+            sizes = dict(cs=rng.randint(3, 6), mcs=rng.randint(1, 4), vf=8, ccs=rng.randint(1, 4))
     else:
         srt = Lz == sorted(Lz) and Rz == sorted(Rz)
         h = rng.choice(_PANDAS_HINTS) if how != 'outer' else rng.choice([[None] * 4, [True, 'u', True, 'u']])
@@ -1166,7 +1183,7 @@ def _gen_key_dtypes(tier, rng, cnt0):
     from harness import hot
     reps = 2 if tier == 'quick' else 12
     if hot.changed():
-        reps *= 3            # some library source differs from the recorded tree: larger structured-random budget
+        reps *= 2            # some library source differs from the recorded tree: larger structured-random budget
     cnt = cnt0
     for rep in range(reps):
         for (a, b) in _dtype_pairs():
